@@ -304,7 +304,14 @@ func (w *batchWorker) runUnit(u batchUnit) {
 			x /= len(batchSizes)
 		}
 		w.cur.Store(describeSpecs(specs))
-		w.evalVector(specs, []int{u.l, u.o0, u.o1, v})
+		// simplest first: fewer packets, then vectors without empty-data packets, then enumeration order
+		hasEmpty := 0
+		for _, s := range specs {
+			if s.Size == 0 {
+				hasEmpty = 1
+			}
+		}
+		w.evalVector(specs, []int{u.l, hasEmpty, u.o0, u.o1, v})
 	}
 }
 
